@@ -40,10 +40,18 @@ SENT_BITS = np.array([SENT]).view(np.uint64)[0]
 # These constants live in vf/oracle/sens.py next to each law; the observed worst ratios are written to the evidence.
 
 
-# Known finding C28:static-acc (known_findings.json): mj_objectAcceleration returns 0 for objects on bodies whose
-# weld root has no dofs, so accelerometer / framelinacc there read 0 instead of -gravity.  That class is excluded from
-# the main stream by construction (vf/gen_sens.py; exclusions counted in the evidence) and exercised by the dedicated
-# probe static_acc_probe() below, which raises it through ck.violation(fingerprint='C28:static-acc').
+# Known findings (known_findings.json).  Policy: the oracle stays doc-faithful; the exact input class of an OPEN finding
+# is excluded from the main stream by construction (vf/gen_sens.py `exclude=`; exclusions are counted in the evidence)
+# and exercised by ONE dedicated probe that raises it through ck.violation(fingerprint=...).  Findings that were
+# repaired in /repo are no longer excluded (the probes stay as regression tests and would raise a plain VIOLATION... via
+# their fingerprint being status=fixed).
+#   C28:static-acc          (fixed b662a89cd) accelerometer/framelinacc on dof-less bodies read 0     static_acc_probe
+#   C28:rk4-delay           (OPEN)            RK4: delay>0 samples taken from the last RK stage      delay_probe
+#   C28:ekinetic-stale      (fixed e04b1b088) e_kinetic one evaluation stale with the energy flag     ekinetic_probe
+#   C28:multiray-cull       (fixed 286c65cab) camera rangefinder misses surfaces (mj_multiRay cull)   multiray_probe
+#   C28:capsulebox-distmax  (fixed 4763a753d) capsule-box distance undetected for distmax > 1         capsulebox_probe
+#   C28:ccd-concentric      (OPEN)            concentric convex geoms: distance 0 instead of the depth concentric_probe
+OPEN_FINDINGS = ('rk4-delay', 'ccd-concentric')
 ACC_KINDS = ('accelerometer', 'framelinacc', 'frameangacc')
 
 
@@ -222,10 +230,11 @@ def check_case(ck, lib, gm, seed, nsteps, stats):
     if s['hist'] is not None:
       stats['cov'][tag + '|isolation(history:%s)' % s['hist']] += 1
       continue
-    if kind in ACC_KINDS and body >= 0 and int(m.body_dofnum[int(m.body_weldid[body])]) == 0:
+    if ('static-acc' in OPEN_FINDINGS and kind in ACC_KINDS and body >= 0 and
+        int(m.body_dofnum[int(m.body_weldid[body])]) == 0):
       stats['findings']['excluded-static-acc-in-main-stream'] += 1     # 0 by construction of the generator
       continue
-    if kind == 'rangefinder' and int(m.sensor_objtype[i]) == E.mjOBJ_CAMERA:
+    if 'multiray-cull' in OPEN_FINDINGS and kind == 'rangefinder' and int(m.sensor_objtype[i]) == E.mjOBJ_CAMERA:
       # known finding C28:multiray-cull (mj_multiRay culls bodies with an unrotated bounding-sphere centre): camera
       # rangefinders are law-checked by multiray_probe() only; here they take part in the isolation checks
       stats['findings']['excluded-camera-rangefinder-in-main-stream'] += 1
@@ -298,6 +307,7 @@ def check_case(ck, lib, gm, seed, nsteps, stats):
   stats['rk4_excluded'] = stats.get('rk4_excluded', 0) + info.get('excluded_rk4_delay', 0)
   stats['ekin_excluded'] = stats.get('ekin_excluded', 0) + info.get('excluded_ekinetic_energyflag', 0)
   stats['capbox_excluded'] = stats.get('capbox_excluded', 0) + info.get('excluded_capsulebox_cutoff', 0)
+  stats['samebody_excluded'] = stats.get('samebody_excluded', 0) + info.get('excluded_same_body_pairs', 0)
   if nefc > 0:
     stats['nefc>0'] += 1
   labels = ['nefc>0' if nefc else 'nefc=0', 'ncon>0' if int(d.ncon) else 'ncon=0', 'nsteps=%d' % nsteps]
@@ -409,6 +419,71 @@ def capsulebox_probe(ck, lib, n):
     ck.case(nontrivial=False, key=xml, labels=['capsulebox-probe'])
   ck.run_hypothesis(test, capsulebox_cases(), n, name='capsulebox-probe')
   ck.extra['capsulebox_probe_hits'] = hits[0]
+
+
+CONC_GEOMS = ['type="sphere" size="%s"', 'type="ellipsoid" size="%s %s %s"', 'type="capsule" size="%s %s"',
+              'type="cylinder" size="%s %s"', 'type="box" size="%s %s %s"']
+
+
+@st.composite
+def concentric_cases(draw):
+  def geom(name):
+    t = draw(st.sampled_from(CONC_GEOMS))
+    return '<geom name="%s" %s quat="%s"/>' % (name, t % tuple(mg.fmt(draw(mg.num(0.03, 0.2))) for _ in range(t.count('%s'))),
+                                             mg.fmt(draw(mg.unit_quat())))
+  off = draw(st.sampled_from(['0 0 0', '0 0 0', '1e-10 0 0', '0.01 0.005 0', '0.02 -0.01 0.015']))
+  el = draw(st.sampled_from(['distance', 'distance', 'normal', 'fromto']))
+  xml = ('<mujoco><worldbody><body pos="%s">%s</body><body pos="%s" quat="%s"><joint type="free"/>%s</body></worldbody>'
+         '<sensor><%s geom1="a" geom2="b" cutoff="%s"/></sensor></mujoco>' % (
+             mg.fmt([draw(mg.num(-1, 1)) for _ in range(3)]), geom('a'), off, mg.fmt(draw(mg.unit_quat())), geom('b'), el,
+             draw(st.sampled_from(['0', '0.5']))))
+  return xml, el, off
+
+
+def concentric_probe(ck, lib, n):
+  """collision sensors on two deeply overlapping convex geoms (each centre at least 1 cm inside the other geom): a
+  collision must be detected with a negative distance not shallower than that (collision-sensors: 'negative
+  distances (corresponding to geom-geom penetration) will be reported')."""
+  hits = [0]
+  from vf.oracle import geomref
+
+  def test(case):
+    xml, el, off = case
+    m = lib.model_from_xml(xml)
+    d = lib.make_data(m)
+    # body 2 is free: place it relative to body 1
+    d.qpos[:3] = np.array(m.body_pos[1]) + np.array([float(x) for x in off.split()])
+    lib.mj_forward(m, d)
+    s1 = geomref.shape_from_model(m, d, 0)
+    s2 = geomref.shape_from_model(m, d, 1)
+    depth = -max(geomref.sdf(s2, s1.pos), geomref.sdf(s1, s2.pos))     # both centres at least this deep inside
+    if depth < 0.01:
+      ck.label('concentric-probe:shallow')
+      return
+    got = np.array(d.sensordata[:int(m.sensor_dim[0])])
+    if el == 'distance':
+      bad = got[0] > -depth + 1e-6
+      zero = got[0] >= -1e-9
+    elif el == 'normal':
+      bad = abs(np.linalg.norm(got) - 1) > 1e-9
+      zero = bool(np.all(got == 0))
+    else:
+      bad = np.linalg.norm(got[3:] - got[:3]) < depth - 1e-6
+      zero = np.linalg.norm(got[3:] - got[:3]) <= 1e-9
+    if bad:
+      concentric = np.linalg.norm(s1.pos - s2.pos) < 1e-6
+      msg = '%s of two geoms whose centres are %.3g inside each other reads %r\n%s' % (el, depth, got.tolist(), xml)
+      if concentric and zero:
+        ck.violation(msg, dict(xml=xml), bucket='known:ccd-concentric', fingerprint='C28:ccd-concentric')
+        hits[0] += 1
+        return
+      # a depth that is under-estimated but not zero (e.g. analytic capsule-box: -0.02 where both centres are 0.03
+      # deep) is a narrow-phase accuracy question that belongs to C13/C15; counted, not judged by the sensor check
+      ck.label('concentric-probe:depth-underestimated(C15 territory)')
+      return
+    ck.case(nontrivial=False, key=xml, labels=['concentric-probe'])
+  ck.run_hypothesis(test, concentric_cases(), n, name='concentric-probe')
+  ck.extra['concentric_probe_hits'] = hits[0]
 
 
 @st.composite
@@ -653,17 +728,18 @@ def main(ck):
       'quaternion readings are compared as rotations (q and -q are the same orientation)',
   ]
   maxb = 5 if ck.quick else 8
-  strat = st.tuples(gs.sensor_models(max_bodies=maxb, max_sensors=10), mg.state_seed(), st.integers(0, 3))
+  strat = st.tuples(gs.sensor_models(max_bodies=maxb, max_sensors=10, exclude=OPEN_FINDINGS), mg.state_seed(), st.integers(0, 3))
 
   def test(case):
     gm, seed, nsteps = case
     check_case(ck, lib, gm, seed, nsteps, stats)
-  ck.run_hypothesis(test, strat, ck.budget(700, 12000), name='sensors')
+  ck.run_hypothesis(test, strat, ck.budget(600, 12000), name='sensors')
   static_acc_probe(ck, lib, ck.budget(20, 300))
   delay_probe(ck, lib, ck.budget(40, 600))
   ekinetic_probe(ck, lib, ck.budget(30, 300))
   multiray_probe(ck, lib, ck.budget(120, 3000))
   capsulebox_probe(ck, lib, ck.budget(60, 1000))
+  concentric_probe(ck, lib, ck.budget(60, 1000))
   ck.extra['coverage_by_type_object_reference_level'] = dict(sorted(stats['cov'].items()))
   ck.extra['worst_error_over_tolerance_by_class'] = stats['worst']
   ck.extra['deep_and_nefc_by_type'] = dict(stats['deep'])
@@ -680,7 +756,11 @@ def main(ck):
       'multiray-cull: camera rangefinders kept isolation-only in the main stream':
           stats['findings'].get('excluded-camera-rangefinder-in-main-stream', 0),
       'capsulebox-distmax: collision sensors with a capsule-box pair restricted to cutoff <= 1':
-          stats.get('capbox_excluded', 0)}
+          stats.get('capbox_excluded', 0),
+      'ccd-concentric: same-body geom candidates removed from collision sensors by the generator':
+          stats.get('samebody_excluded', 0),
+      'ccd-concentric: collision sensors with coincident geom centres reaching the main stream (isolation only)':
+          sum(v for k, v in stats['cov'].items() if 'concentric-geoms' in k)}
 
 LEVEL = 'exploration'
 TECHNIQUE = ('property-based testing (Hypothesis): generated models x generated sensor blocks x generated states, '
